@@ -52,7 +52,7 @@ func init() {
 			return indexCells(cellsOf(args[0]), cellsOf(args[1]))
 		},
 		"fmt.Sprintf": func(fr *frame, args []value) value {
-			return symFmt(args[0].(string), args[1].([]value), fr)
+			return symFmt(args[0], args[1].([]value), fr)
 		},
 		"time.Now": func(fr *frame, args []value) value {
 			// wall=0 (no monotonic), ext = seconds since year 1, loc=nil (UTC)
@@ -220,7 +220,7 @@ func init() {
 			}
 		},
 		"fmt.Fprintf": func(fr *frame, args []value) value {
-			str := symFmt(args[1].(string), args[2].([]value), fr)
+			str := symFmt(args[1], args[2].([]value), fr)
 			w := args[0].(iface)
 			m := fr.i.prog.LookupMethod(w.t, nil, "Write")
 			return call(fr.i, fr, 0, m, []value{w.v, append([]value{}, cellsOf(str)...)})
